@@ -58,6 +58,7 @@ type flight struct {
 	raw      []byte
 	stamp    int
 	dup      bool
+	held     bool // a delayed retransmission: not deliverable until the recipient itself has sent something again
 }
 
 // Net is the shared network of one execution.
@@ -88,7 +89,7 @@ func (n *Net) Inject(from, to sharing.ID, raw []byte) {
 func (n *Net) pending(to sharing.ID) []*flight {
 	var out []*flight
 	for _, f := range n.q {
-		if f.to == to {
+		if f.to == to && !f.held {
 			out = append(out, f)
 		}
 	}
@@ -131,6 +132,13 @@ func (e *Endpoint) Quorum() []sharing.ID { return append([]sharing.ID{}, e.net.p
 // makes the order in which Router.SendTo ranges over its Go map unobservable.
 func (e *Endpoint) Send(_ context.Context, to sharing.ID, raw []byte) error {
 	n := e.net
+	// a delayed retransmission addressed to this party is released once the party has moved on (it sends again)
+	for _, f := range n.q {
+		if f.held && f.to == e.id {
+			f.held = false
+			f.stamp = mcrt.S.Points
+		}
+	}
 	cid, payload, ok := Unwire(raw)
 	if !ok {
 		n.Inject(e.id, to, append([]byte{}, raw...))
@@ -167,9 +175,18 @@ func (e *Endpoint) Receive(ctx context.Context) (sharing.ID, []byte, error) {
 		c = mcrt.Choose("arrival", opts)
 	}
 	f := p[c]
-	if n.DupDev && !f.dup && mcrt.ChooseDev("retransmit", 2) == 1 {
-		f.dup = true
-		return f.from, f.raw, nil
+	if n.DupDev && !f.dup {
+		// identical retransmission: 1 = the copy stays in flight and arrives next; 2 = the copy arrives only after the
+		// recipient has answered (the stale copy of an exchange the recipient has already completed)
+		switch mcrt.ChooseDev("retransmit", 3) {
+		case 1:
+			f.dup = true
+			return f.from, f.raw, nil
+		case 2:
+			f.dup = true
+			f.held = true
+			return f.from, f.raw, nil
+		}
 	}
 	n.remove(f)
 	return f.from, f.raw, nil
